@@ -133,6 +133,22 @@ def run(prog: Program, rep: Report, tier: str) -> None:
             rep.check("R11.3", "tracker.Tracker.diffuse_vert", f"size of draw `{short(node)}`", sz is not None and sz == NF.atom("len(X)"), what_bad=f"draw size is {vtext(size) if size is not None else 'absent'}", what_ok="len(X)", loc=fi.loc(node))
             rep.check("R11.2", "tracker.Tracker.diffuse_vert", f"arguments of `{short(node)}`", not pargs and set(kws) <= {"size"}, what_bad=f"normal() called with {pargs} {kws}", what_ok="standard normal", loc=fi.loc(node))
 
+    # vertical diffusion together with vertical advection: the two displacements add
+    it, fr, draws = update_normal_form(prog, dict(advection=False, diffusion=False, vertdiff=True, vertical_advection=True))
+    z = unreflected(it.objenv.get("state.Z"))
+    ok, what = False, f"stored Z is not a normal form: {vtext(z)[:100]}"
+    if isinstance(z, NF):
+        disp = z - NF.atom("Z")
+        xis = [d[0].canon() for d in draws if d[0].canon() in disp.atoms()]
+        if len(xis) == 1:
+            c = disp.coeff(xis[0])
+            rest = disp.subst({xis[0]: NF.const(0)})
+            ok = (c * c) == 2 * NF.atom("Dz") * NF.atom("dt") and rest == NF.atom("W") * NF.atom("dt")  # W: the forcing's vertical velocity (c01.update_normal_form)
+            what = f"vertical displacement {disp}"
+        else:
+            what = f"{len(xis)} random draw(s) enter the vertical displacement {disp} when vertical advection is also on: the random walk is dropped or doubled"
+    rep.check("R11.1", fi.qual, "vertical: advective and diffusive parts add (vertdiff on, vertical_advection on)", ok, what_bad=what + "; must be w*dt + sqrt(2*Dz*dt)*xi", what_ok=what, loc=fi.loc())
+
     # R11.4: nothing drawn when off
     for adv in (False, True):
         for va in (False, True):
@@ -170,6 +186,8 @@ AUDIT = [
     Mut("drift", T, "            U += Udiff\n", "            U += Udiff + 0.01\n", rule="R11.2"),
     Mut("always-draw", T, "        if self.diffusion:\n            Udiff, Vdiff", "        if True:\n            Udiff, Vdiff", rule="R11.4"),
     Mut("diffusion-added-twice", T, "            V += Vdiff\n", "            V += 2 * Vdiff\n", rule="R11.1"),
+    Mut("vertical-w-overwritten", T, "            if self.vertdiff:\n                W = self.diffuse_vert(num_particles=len(X))\n                Z += W * self.dt\n\n            # Advection\n            if self.vertical_advection:\n                W = force.variables[\"w\"]\n                Z += W * self.dt", "            W = np.zeros_like(Z)\n            if self.vertdiff:\n                W = self.diffuse_vert(num_particles=len(X))\n\n            # Advection\n            if self.vertical_advection:\n                W = force.variables[\"w\"]\n            Z += W * self.dt", rule="R11.1"),
+    Mut("benign-vertical-w-summed", T, "            if self.vertdiff:\n                W = self.diffuse_vert(num_particles=len(X))\n                Z += W * self.dt\n\n            # Advection\n            if self.vertical_advection:\n                W = force.variables[\"w\"]\n                Z += W * self.dt", "            W = np.zeros_like(Z)\n            if self.vertdiff:\n                W = W + self.diffuse_vert(num_particles=len(X))\n\n            # Advection\n            if self.vertical_advection:\n                W = W + force.variables[\"w\"]\n            Z += W * self.dt", expect="silent"),
     Mut("shared-cached-stddev", T, "        self.rng = np.random.default_rng()\n", "        self.rng = np.random.default_rng()\n        if self.diffusion:\n            self.stddev = (2 * self.D / self.dt) ** 0.5\n        if self.vertdiff:\n            self.stddev = (2 * self.Dz / self.dt) ** 0.5\n", rule="R11.1",
         more=((T, "        stddev = (2 * self.D / self.dt) ** 0.5\n        U = stddev", "        stddev = self.stddev\n        U = stddev"), (T, "        stddev = (2 * self.Dz / self.dt) ** 0.5\n        W:", "        stddev = self.stddev\n        W:"))),
     Mut("benign-cached-stddev", T, "        self.rng = np.random.default_rng()\n", "        self.rng = np.random.default_rng()\n        self.stddev_h = (2 * self.D / self.dt) ** 0.5\n", expect="silent",
